@@ -325,8 +325,11 @@ func parseRaceLog(from int64) proto.Violation {
 	// split into stacks: a stack starts at a line that does not begin with whitespace and
 	// ends at an empty line
 	first := txt
-	if i := strings.Index(txt[1:], "WARNING: DATA RACE"); i >= 0 {
-		first = txt[:i+1]
+	if i := strings.Index(first, "WARNING: DATA RACE"); i >= 0 {
+		first = first[i:]
+		if j := strings.Index(first, "\n=================="); j >= 0 {
+			first = first[:j]
+		}
 	}
 	stacks := strings.Split(first, "\n\n")
 	n := 0
